@@ -20,6 +20,12 @@ open PMV.GuardEv
     never a bare write.  The table is regenerated from the source on every run. -/
 theorem guards_ok : tableOk PMV.Gen.Guards.table = true := by decide
 
+/-- T2, lock sites: `Qube.broadcast_to` hands back a read-only object that shares the memory of its source, so it locks
+    the source (`self.as_readonly(...)`); in the regenerated table every such call stands under `if _protected:` and
+    nothing else (`_protected=False` is the documented opt-out), and there is at least one. -/
+theorem lock_sites_ok :
+    (PMV.Gen.Guards.lockSites != [] && PMV.Gen.Guards.lockSites.all (fun c => c == ["_protected"])) = true := by decide
+
 /-- the predicate is not vacuous: a mutator that writes first is rejected -/
 example : tableOk [Method.mk "Qube" "set_units" [Path.mk .falsy [.write "_units_", .guard, .ret]]] = false := by
   decide
